@@ -627,10 +627,24 @@ func (c *Ctx) policyGuard(rule, cons string, fn *ssa.Function, target ssa.Instru
 		return
 	}
 	isP := func(in ssa.Instruction) bool { return in == ssa.Instruction(pcall) }
-	edgeOK := func(b *ssa.BasicBlock, k int) bool { return !notDeferEdge(b, k, deferV) }
-	if hit := (&eng.Search{Target: isTarget, Avoid: isP, Edge: edgeOK}).FromEntry(fn); hit != nil {
-		r.Bad(rule, cons, p.InstrPos(pcall), "the accepting step can be reached without consulting %s and without the extension having answered Allow (no `extAction != Defer` edge on that path)", shortFn(policyFn))
-		return
+	// the policy may be bypassed only when a hook answered Allow: case analysis over the
+	// hook's answer (no hook in this function counts as "no answer")
+	emits := hookEmits(fn)
+	if len(emits) == 0 {
+		if hit := (&eng.Search{Target: isTarget, Avoid: isP}).FromEntry(fn); hit != nil {
+			r.Bad(rule, cons, p.InstrPos(pcall), "the accepting step can be reached without consulting %s", shortFn(policyFn))
+			return
+		}
 	}
+	for _, emit := range emits {
+		he := c.newHookEval(fn, emit)
+		for _, hc := range []hookCase{hcNil, hcDefer} {
+			if hit := (&eng.Search{Target: isTarget, Avoid: isP, Edge: he.feasible(hc)}).FromEntry(fn); hit != nil {
+				r.Bad(rule, cons, p.InstrPos(pcall), "the accepting step can be reached without consulting %s and without the extension having answered Allow (hook answer: %s)", shortFn(policyFn), hc)
+				return
+			}
+		}
+	}
+	_ = deferV
 	r.Ok(rule, cons, p.InstrPos(pcall), "unreachable from %s()==false; the policy call is bypassed only when extAction != Defer", shortFn(policyFn))
 }
